@@ -530,6 +530,7 @@ fn mac_fn(p: &ChainProg, idx: usize, suffix: &str) -> String {
     } else {
         invocation
     };
+    let invocation = if kind.is_async && kind.is_spawn && WHICH.with(|w| w.get()) == Which::C07 { format!("require_send({})", invocation) } else { invocation };
     if kind.is_async {
         mac.push_str(&format!("    block_on(async {{\n        let __r = {}.await;\n        format!(\"{{:?}}\", __r)\n    }})\n}}\n", invocation));
     } else {
